@@ -359,6 +359,35 @@ def install(interp, db=None, files=None):
     interp.ext_summaries["os.unlink"] = s_unlink
     interp.ext_summaries["os.remove"] = s_unlink
     interp.ext_summaries["os.path.exists"] = lambda i, pos, kw, node: _pathname(pos[0]) in i.vfs
+    def s_unquote(i, pos, kw, node):
+        import urllib.parse as _up
+        v = pos[0].simplify() if isinstance(pos[0], AStr) else pos[0]
+        if not isinstance(v, str):
+            raise Unsupported("urllib.parse.unquote of %r" % (v,))
+        return _up.unquote(v)
+    interp.ext_summaries["urllib.parse.unquote"] = s_unquote
+    interp.ext_summaries["textwrap.dedent"] = lambda i, pos, kw, node: __import__("textwrap").dedent(_text(i, pos[0], "text"))
+    # urllib.parse: what the package asks of it for telling URLs from paths
+    import urllib.parse as _up0
+
+    class _Parsed:
+        def __init__(self, r):
+            self.r = r
+
+        def __deepcopy__(self, memo):
+            return self
+
+        def ai_getattr(self, i, attr):
+            return getattr(self.r, attr) if attr in ("scheme", "netloc", "path", "query", "fragment", "params") else NotImplemented
+
+    def s_urlparse(i, pos, kw, node):
+        v = pos[0].simplify() if isinstance(pos[0], AStr) else pos[0]
+        if not isinstance(v, str):
+            raise Unsupported("urlparse of %r" % (v,))
+        return _Parsed(_up0.urlparse(v))
+    for mod in ("urllib.parse", "urlparse", "urllib"):
+        interp.ext_summaries[mod + ".urlparse"] = s_urlparse
+    interp.ext_values["urllib.parse.uses_netloc"] = list(_up0.uses_netloc)
     interp.ext_summaries["tempfile.gettempdir"] = lambda i, pos, kw, node: "/tmp"
     interp.ext_summaries["tempfile.gettempprefix"] = lambda i, pos, kw, node: "tmp"
     interp.ext_summaries["os.getpid"] = lambda i, pos, kw, node: 4242
